@@ -497,29 +497,33 @@ def _(ctx):
         ctx.sides('path%d' % k, s, pre, pins=pins)
     ctx.record('paths', PROVED if ps else ERROR, 'B', 0, '%d paths' % len(ps))
 
-@obligation('C11.mssm.tan_alpha.at_MA_equal_MZ', fns=[(M2L, 'tan_alpha')], backend='bounded', replay=tan_alpha_replay)
+@obligation('C11.mssm.tan_alpha.at_MA_equal_MZ', fns=[(M2L, 'tan_alpha')], backend='F', replay=tan_alpha_replay)
 def _(ctx):
-    """BOUNDED stand-in (IEEE execution of the extracted function, 60 points; CBMC does not finish on the symbolic multiplications/divisions here): at MA
-    bit-identical to MZ (tan(2 alpha) = +-inf) the result is exactly -1 (alpha = -pi/4): finite, negative, the common limit of both sides"""
-    import math
-    bad = []
-    n = 0
-    for tb in (0.2, 0.7, 1.0001, 1.5, 3.0, 10.0, 40.0, 60.0, 200.0, 1000.0):
-        for mz in (1.0, 50.0, 91.1876, 91.18760000000001, 150.0, 1.0e4):
-            it = Interp(ctx.w, mode='float', stubs={'MSSMNoFV_onshell::get_TB': lambda i, a, t, tb=tb: tb, 'MSSMNoFV_onshell::get_MZ': lambda i, a, t, mz=mz: mz,
-                                                     'MSSMNoFV_onshell::get_MA0': lambda i, a, t, mz=mz: mz, 'get_TB': lambda i, a, t, tb=tb: tb,
-                                                     'get_MZ': lambda i, a, t, mz=mz: mz, 'get_MA0': lambda i, a, t, mz=mz: mz})
-            m = it.new_object('MSSMNoFV_onshell')
-            try:
-                r = it.run_single(lambda: it.call('tan_alpha', [m], file=M2L))
-            except ZeroDivisionError:
-                r = float('nan')
-            n += 1
-            if not (isinstance(r, float) and r == -1.0):
-                bad.append((tb, mz, r))
-    ctx.record('', PROVED if not bad else FAILED, 'bounded', 0, 'bounded: %d points (tan beta x MZ) with MA == MZ; result == -1.0 at all of them' % n if not bad else
-               'tan_alpha at MA == MZ is %r for tan(beta)=%r, MZ=%r (expected -1)' % (bad[0][2], bad[0][0], bad[0][1]),
-               model={'_float': {'tb': bad[0][0], 'mz': bad[0][1]}} if bad else None, solver='float interpreter (IEEE doubles)', kind='bounded')
+    """ensures (IEEE-754 doubles, round to nearest -- NOT the real-arithmetic abstraction): for ALL tan(beta) in [1e-3, 1e3] (tan(beta) = 1 included) and ALL
+    MZ in [1e-3, 1e5], with MA bit-identical to MZ (tan(2 alpha) = +-inf):  tan_alpha(model) == -1.0 exactly (alpha = -pi/4: finite, negative, the common
+    limit of both sides).  Decided by executing the extracted function on SETS of doubles (gm2v/fpset.py: sign-homogeneous pieces + NaN flag; end-point
+    evaluation is exact for rounded monotone operations; x - x == +0 for equal finite expressions is the only correlation used); no sampling."""
+    from gm2v import fpset
+    def run(vals):
+        tb, mz = vals['tb'], vals['mz']
+        st = {}
+        for nm, v in (('get_TB', tb), ('get_MZ', mz), ('get_MA0', mz)):
+            st[nm] = st['MSSMNoFV_onshell::' + nm] = (lambda i, a, t, v=v: v)
+        it = Interp(ctx.w, mode='float', stubs=st)
+        m = it.new_object('MSSMNoFV_onshell')
+        r = it.run_single(lambda: it.call('tan_alpha', [m], file=M2L))
+        ctx.merge_rules(it)
+        return fpset.lift(r)
+    t0 = __import__('time').time()
+    st, n, info = fpset.decide_on_box(run, {'tb': (1e-3, 1e3), 'mz': (1e-3, 1e5)}, lambda r: r.is_point() and r.value() == -1.0)
+    dt = __import__('time').time() - t0
+    if st == 'proved':
+        ctx.record('', PROVED, 'F', dt, 'result set == {-1.0} on %d box(es) covering tan(beta) in [1e-3,1e3] x MZ = MA in [1e-3,1e5]' % n, solver='IEEE set-enclosure execution (gm2v/fpset.py)')
+    elif st == 'failed':
+        ctx.record('', FAILED, 'F', dt, 'tan_alpha at MA == MZ = %r, tan(beta) = %r is %s (expected exactly -1)' % (info['mz'], info['tb'], info['_result']),
+                   model={'_float': {'tb': info['tb'], 'mz': info['mz']}}, solver='IEEE set-enclosure execution (gm2v/fpset.py)')
+    else:
+        ctx.record('', UNDECIDED, 'F', dt, 'not decided: %s' % info, solver='IEEE set-enclosure execution (gm2v/fpset.py)')
 
 # ------------------------------------------------------------------------------------------------ guards of removable singularities vs the rounding noise floor
 # A guard `|E| < eps` that switches to the analytic limit next to a zero of a denominator only works if eps is ABOVE the rounding noise of E: in the standard model of
